@@ -51,6 +51,20 @@ Definition id128_hex (x : N) : str := hexn 32 x.
 Definition is_hexdigit (c : N) : bool := ((48 <=? c) && (c <=? 57)) || ((97 <=? c) && (c <=? 102)).
 Definition is_hex32 (s : str) : bool := Nat.eqb (length s) 32 && forallb is_hexdigit s.
 
+(* ids of a whole run.  The k-th format() call of the process - whichever SentryFormatter object it is made on
+   ([objs] names the object of each call) - draws the k-th value of the process-wide source (QUuid::createUuid):
+   the id is a function of the draw only, never of the formatter object or of a per-object count. *)
+Definition run_ids (draw : nat -> N) (objs : list nat) : list str := map (fun k => id128_hex (draw k)) (seq 0 (length objs)).
+Fixpoint strs_distinctb (l : list str) : bool :=
+  match l with [] => true | x :: r => negb (existsb (seqb x) r) && strs_distinctb r end.
+(* the oracle for the ids of a run: each is 32 lower-case hex digits and they are pairwise distinct *)
+Definition ids_ok_b (ids : list str) : bool := forallb is_hex32 ids && strs_distinctb ids.
+(* for contrast (refuted in SentryProofs.v): one base per process plus a count kept by each formatter object *)
+Fixpoint count_eq (o : nat) (l : list nat) : N := match l with [] => 0 | x :: r => (if Nat.eqb x o then 1 else 0) + count_eq o r end.
+Fixpoint counter_ids_from (base : N) (before objs : list nat) : list str :=
+  match objs with [] => [] | o :: r => id128_hex (base + count_eq o before) :: counter_ids_from base (o :: before) r end.
+Definition counter_ids (base : N) (objs : list nat) : list str := counter_ids_from base [] objs.
+
 (* ------------------------------------------------------------------ configuration read from the source *)
 Inductive slot := STag | SOs | SDevice.
 Definition slot_code (s : slot) : N := match s with STag => 0 | SOs => 1 | SDevice => 2 end.
@@ -80,6 +94,29 @@ Definition slot_fields (cfg : sentry_cfg) (sl : slot) (attrs : list (str * json)
                      else []) (routes cfg).
 Definition is_skipped (cfg : sentry_cfg) (k : str) : bool := existsb (seqb k) (skipped cfg).
 
+(* ------------------------------------------------------------------ how the attributes get onto the message *)
+(* The attribute store of a message is a QVariantHash; the handlers of a pipeline change it before the
+   formatter runs.  [mattrs] is the list of settings in order (a later one overrides); the operations:
+     OSet k v    LogMessage::setAttribute(k, v)
+     OUpdate l   LogMessage::updateAttributes(l) - what AttrHandler::process does with the hash an attribute
+                 handler returns (FunctionAttrHandler, AppInfoAttrs, ...): QHash::insert(hash) REPLACES the value
+                 of a name that is already there
+     OSetAll l   LogMessage::setAttributes(l)    - also what a scoped Pipeline does when it restores the attributes
+     ORemove k   LogMessage::removeAttribute(k)
+   [look_last k] of the resulting list is QHash::value(k) / LogMessage::attribute(k). *)
+Inductive attr_op := OSet (k : str) (v : json) | OUpdate (l : list (str * json)) | OSetAll (l : list (str * json)) | ORemove (k : str).
+Definition apply_op (a : list (str * json)) (o : attr_op) : list (str * json) :=
+  match o with
+  | OSet k v => a ++ [(k, v)]
+  | OUpdate l => a ++ l
+  | OSetAll l => l
+  | ORemove k => filter (fun kv => negb (seqb k (fst kv))) a
+  end.
+Definition apply_ops (a : list (str * json)) (ops : list attr_op) : list (str * json) := fold_left apply_op ops a.
+Definition set_mattrs (m : lmsg) (a : list (str * json)) : lmsg :=
+  {| mtype := mtype m; mtext := mtext m; mfmt := mfmt m; mfile := mfile m; mfunc := mfunc m; mcat := mcat m;
+     mline := mline m; mtime := mtime m; mtid := mtid m; mattrs := a |}.
+
 (* key names *)
 Definition k_event_id : str := [101;118;101;110;116;95;105;100].
 Definition k_timestamp : str := [116;105;109;101;115;116;97;109;112].
@@ -108,6 +145,9 @@ Definition is_nil (s : str) : bool := match s with [] => true | _ => false end.
 (* the message: the JSON model's message plus the time as milliseconds since the epoch *)
 Record smsg := { s_msg : lmsg; s_time_ms : Z }.
 Definition s_attrs (m : smsg) := mattrs (s_msg m).
+(* the message after the handlers that run before the formatter *)
+Definition with_ops (m : smsg) (ops : list attr_op) : smsg :=
+  {| s_msg := set_mattrs (s_msg m) (apply_ops (mattrs (s_msg m)) ops); s_time_ms := s_time_ms m |}.
 Definition s_cat (m : smsg) : str := cstr (mcat (s_msg m)).
 Definition s_text (m : smsg) : str := mtext (s_msg m).
 
